@@ -6,42 +6,44 @@
 (* mod.rs WriteAheadLog, octopii/src/openraft/node.rs peer address records):              *)
 (*   - every mutating call updates an in-memory mirror (MemLogStoreInner) and appends     *)
 (*     one record per entry / vote / committed / purge / truncate to ONE engine topic      *)
-(*     ("wal_data") of a Walrus instance opened in StrictlyAtOnce mode;                   *)
+(*     ("wal_data") of a Walrus instance;                                              *)
 (*   - a peer address is one record appended to the topic of a second Walrus instance;    *)
-(*   - opening = WriteAheadLog::read_all(): CONSUMING batch reads (checkpoint = true)      *)
-(*     until two empty batches, i.e. it returns the records after the engine's persisted   *)
-(*     read cursor and moves that cursor to the end; the mirror is rebuilt by replaying     *)
-(*     exactly the returned records into an empty mirror; load_peer_addr_records does the   *)
-(*     same for the peer map.                                                          *)
+(*   - opening = WriteAheadLog::read_all(): consuming batch reads until two empty batches, *)
+(*     i.e. it returns the records after the engine's read cursor and moves that cursor to   *)
+(*     the end; the mirror is rebuilt by replaying exactly the returned records into an       *)
+(*     empty mirror; load_peer_addr_records does the same for the peer map;                 *)
 (*   - there is no Drop logic: a clean drop and a kill leave the same files.              *)
 (*                                                                                     *)
-(* Consuming = TRUE  : the design as written (wal cursor `walCur` survives restarts).      *)
-(* Consuming = FALSE : the replay a correct store needs (always from record 1).            *)
+(* PersistCursor = TRUE  : the design as the code: the engine is opened in StrictlyAtOnce mode,  *)
+(*    which persists the read cursor, so an open replays only the records appended since the      *)
+(*    previous open (known finding OCT-C21-CONSUMED-REPLAY; /repo 0fba9ce tried AtLeastOnce and     *)
+(*    was reverted by f75c000 because the vendored engine then never advances the cursor).         *)
+(* PersistCursor = FALSE : what the contract needs: every open replays from record 1.            *)
 (*                                                                                     *)
 (* Every step is a contract action (LogStore) conjoined with the design action, so the     *)
 (* contract state is the acknowledged state; `ObsEqual` says that what the design would     *)
-(* report (its mirror, its loaded peer map) is the acknowledged state. TLC on               *)
-(* Consuming = TRUE yields the shortest history that breaks C21.                          *)
+(* report (its mirror, its loaded peer map) is the acknowledged state.                     *)
 (*                                                                                     *)
-(* Configurations: MC_LogStore_quick / _thorough (Consuming = FALSE: ObsEqual holds, coverage),  *)
-(* MC_LogStore_defect (Consuming = TRUE: ObsEqualCex must be violated, one worker => shortest      *)
-(* history), MC_LogStore_gen (history generation, the code's design), MC_LogStore_gen_guard         *)
-(* (CONSTRAINT ObsEqual = avoidance guard of the known defect), MC_LogStore_gen_deep (-simulate).   *)
+(* Configurations: MC_LogStore_quick / _thorough (PersistCursor = FALSE: ObsEqual holds,       *)
+(* coverage), MC_LogStore_defect (PersistCursor = TRUE: ObsEqualCex must be violated; one worker  *)
+(* => a shortest history; also the vacuity guard that the contract can reject a design),          *)
+(* MC_LogStore_gen (history generation, the code's design), MC_LogStore_gen_guard (CONSTRAINT      *)
+(* ObsEqual = avoidance guard of the known finding), MC_LogStore_gen_deep (-simulate).            *)
 (*                                                                                     *)
 (* `hist` is the operation history (hidden by VIEW); `PrintHist` (always true) prints it    *)
-(* once per distinct (design state, contract state): the histories executed on the real     *)
-(* code.                                                                              *)
+(* once per distinct (design state, contract state) reached by a reopen: the histories       *)
+(* executed on the real code.                                                          *)
 (***************************************************************************************)
 EXTENDS LogStore, TLC, Json
 
-CONSTANTS Consuming,      \* see above
+CONSTANTS PersistCursor,  \* see above
           MaxOps,         \* store operations per history (reopens not counted)
           MaxReopens,
           MaxIndex,       \* highest log index
           MaxTerm,
           MaxBatch        \* entries per append
 
-VARIABLES wal, walCur,    \* log topic: sequence of records; number of records consumed so far
+VARIABLES wal, walCur,    \* log topic: sequence of records; read cursor (records consumed by the last open)
           mirror,         \* [vote, committed, purged, log]
           pwal, pwalCur,  \* peer topic and its cursor
           loaded,         \* peer map returned by the load at the last open
@@ -69,7 +71,7 @@ Replay(m, recs) == IF recs = <<>> THEN m ELSE Replay(ApplyRec(m, Head(recs)), Ta
 RECURSIVE ReplayPeers(_, _)
 ReplayPeers(P, recs) == IF recs = <<>> THEN P ELSE ReplayPeers(PutPeer(P, Head(recs)[1], Head(recs)[2]), Tail(recs))
 
-Unread(w, c) == SubSeq(w, (IF Consuming THEN c ELSE 0) + 1, Len(w))
+Unread(w, c) == SubSeq(w, (IF PersistCursor THEN c ELSE 0) + 1, Len(w))
 
 (* ---- design actions ---- *)
 DWrite(recs) ==
@@ -211,7 +213,7 @@ ObsEqualCex == ObsEqual \/ (PrintT(<<"CEX", ToJson(hist)>>) /\ FALSE)
 View == <<cvars, dvars, bvars>>
 (* always true; prints the history of every distinct state reached by a reopen *)
 PrintHist == (nreopens > 0 /\ hist[Len(hist)].op = "reopen") => PrintT(<<"HIST", ToJson(hist)>>)
-(* avoidance guard for the known defect (used with CONSTRAINT ObsEqual): only histories along     *)
+(* avoidance guard for the known finding (used with CONSTRAINT ObsEqual): only histories along    *)
 (* which the design reports the acknowledged state, so that any other violation stays detectable *)
 PrintHistGuard == (nreopens > 0 /\ hist[Len(hist)].op = "reopen" /\ ObsEqual) => PrintT(<<"HIST", ToJson(hist)>>)
 =============================================================================
